@@ -23,9 +23,19 @@ entry = {"text": d['text'], "design_ref": "DESIGN.md section 8, %s; section 13" 
 p = '/verif/harness/registry.py'
 s = open(p).read()
 if '"%s": {' % pid in s:
-    print('already registered'); sys.exit(0)
-block = '    "%s": {\n        "text": %s,\n        "design_ref": %s,\n        "note": COMMON_NOTE + %s,\n        "technique": %s,\n        "coq_targets": %s,\n    },\n' % (
+    if '--update' not in sys.argv:
+        print('already registered'); sys.exit(0)
+    i = s.index('    "%s": {' % pid)
+    j = s.index('    },\n', i) + 7
+    old_block = s[i:j]
+    m = re.search(r'"coq_targets": (\[.*?\])', old_block)
+    if not targets and m:
+        entry['coq_targets'] = json.loads(m.group(1))
+    s = s[:i] + s[j:]
+def mkblock():
+    return '    "%s": {\n        "text": %s,\n        "design_ref": %s,\n        "note": COMMON_NOTE + %s,\n        "technique": %s,\n        "coq_targets": %s,\n    },\n' % (
     pid, json.dumps(entry['text'], ensure_ascii=False), json.dumps(entry['design_ref']), json.dumps(entry['note'], ensure_ascii=False), json.dumps(entry['technique'], ensure_ascii=False), json.dumps(entry['coq_targets']))
+block = mkblock()
 i = s.rindex('}\n\nNOT_CLAIMED')
 s = s[:i] + block + s[i:]
 open(p, 'w').write(s)
